@@ -94,6 +94,19 @@ class Arr:
         return "Arr" + self.key()
 
 
+class FancyIndex(list):
+    """an index that is a list of integers (numpy integer-array indexing)"""
+
+
+class NTuple(tuple):
+    """a namedtuple value: a tuple whose items are also reachable as attributes"""
+
+    def __new__(cls, name, fields, values):
+        t = tuple.__new__(cls, values)
+        t.nt_name, t.nt_fields = name, tuple(fields)
+        return t
+
+
 class Obj:
     """a record with named attributes (atom entries, space-group objects)"""
 
@@ -479,14 +492,19 @@ class Evaluator:
         self.depth += 1
         prev = getattr(self, "current_fn", None)
         self.current_fn = fn.name
+        gen = is_generator(fn)
+        if gen:
+            env["$yield"] = []
         try:
             self.exec_block(fn.body, env)
         except _Return as r:
-            return r.value
+            if not gen:
+                return r.value
         finally:
             self.depth -= 1
             self.current_fn = prev
-        return None
+        # a generator function is run to completion (its loops are static here): the caller gets the list of yielded values
+        return env["$yield"] if gen else None
 
     def eval_default(self, expr):
         """a default argument: evaluated once, when the `def` is executed (import time for module-level functions)"""
@@ -521,6 +539,19 @@ class Evaluator:
         if isinstance(st, ast.Expr):
             v = st.value
             if isinstance(v, ast.Constant):
+                return
+            if isinstance(v, ast.Yield):
+                if "$yield" not in env:
+                    raise AnalysisError("E3: yield outside a generator function (line %d)" % st.lineno)
+                env["$yield"].append(self.eval(v.value, env) if v.value is not None else None)
+                return
+            if isinstance(v, ast.YieldFrom):
+                seq = self.eval(v.value, env)
+                if isinstance(seq, Arr):
+                    seq = [Arr(x) if isinstance(x, list) else x for x in seq.data]
+                if not isinstance(seq, (list, tuple)):
+                    raise AnalysisError("E3: yield from a value that is not a sequence (line %d)" % st.lineno)
+                env["$yield"].extend(seq)
                 return
             if isinstance(v, ast.Call):
                 f = v.func
@@ -655,7 +686,8 @@ class Evaluator:
                            "integer input makes it an integer array and the stored floats are truncated" % unparse(target))
                     self.hazards.append(rec)
                     HAZARDS.append(rec)
-                if any(not isinstance(i, int) for i in idx[:-1]) or idx[-1] is None:
+                if any(not isinstance(i, int) or isinstance(i, FancyIndex) for i in idx[:-1]) or idx[-1] is None \
+                        or isinstance(idx[-1], FancyIndex):
                     self.store_general(base, idx, val, target)
                     return
                 d = base.data
@@ -709,6 +741,11 @@ class Evaluator:
                 return [take(d, ix[1:])]
             if not isinstance(d, list):
                 raise AnalysisError("E3: too many indices in a store (line %d)" % target.lineno)
+            if isinstance(i, FancyIndex):
+                try:
+                    return [take(d[k_], ix[1:]) for k_ in i]
+                except IndexError:
+                    raise AnalysisError("E3: index out of range in a store (line %d)" % target.lineno)
             if isinstance(i, int):
                 try:
                     return take(d[i], ix[1:])
@@ -722,7 +759,13 @@ class Evaluator:
                 r += 1
                 d = d[0] if d else None
             return r
-        sel = take(paths(base.data, ()), list(idx))
+        fi = [i_ for i_ in idx if isinstance(i_, FancyIndex)]
+        if len(fi) >= 2:
+            if len(fi) != len(idx) or len({len(f_) for f_ in fi}) != 1:
+                raise AnalysisError("E3: mixed integer-array indexing in a store (line %d)" % target.lineno)
+            sel = [tuple(c_) for c_ in zip(*fi)]
+        else:
+            sel = take(paths(base.data, ()), list(idx))
         if isinstance(val, Arr):
             v = val.data
         elif isinstance(val, (Opaque, list, tuple)):
@@ -764,8 +807,20 @@ class Evaluator:
 
     # ---------------------------------------------------------- expressions
     def index_of(self, sl, env):
-        """-> tuple of int | slice"""
+        """-> tuple of int | slice | None (newaxis) | FancyIndex"""
         elts = sl.elts if isinstance(sl, ast.Tuple) else [sl]
+        if not isinstance(sl, (ast.Tuple, ast.Slice)):
+            v0 = self.eval(sl, env)
+            if isinstance(v0, tuple) and not (v0 and isinstance(v0[0], str)):
+                # a tuple VALUE used as index is a multi-dimensional index (a list would be integer-array indexing)
+                out = []
+                for x_ in v0:
+                    i_ = const_int(x_)
+                    if i_ is None:
+                        raise AnalysisError("E3: non-constant index `%s` (line %d)" % (unparse(sl), sl.lineno))
+                    out.append(i_)
+                return tuple(out)
+            self.hand_down(sl, v0)
         out = []
         for e in elts:
             if isinstance(e, ast.Slice):
@@ -777,6 +832,11 @@ class Evaluator:
                 v = self.eval(e, env)
                 if v is None or v == ("npfunc", "newaxis"):
                     out.append(None)
+                    continue
+                if isinstance(v, Arr) and len(v.shape) == 1:
+                    v = list(v.data)
+                if isinstance(v, (list, tuple) if isinstance(sl, ast.Tuple) else list) and v and all(const_int(x_) is not None for x_ in v):
+                    out.append(FancyIndex([const_int(x_) for x_ in v]))
                     continue
                 i = const_int(v)
                 if i is None:
@@ -798,6 +858,20 @@ class Evaluator:
                 except IndexError:
                     raise AnalysisError("E3: index out of range (line %d)" % node.lineno)
             base = materialise(base)
+        if isinstance(base, Arr) and sum(1 for i_ in idx if isinstance(i_, FancyIndex)) >= 2:
+            fi = [i_ for i_ in idx if isinstance(i_, FancyIndex)]
+            if len(fi) != len(idx) or len({len(f_) for f_ in fi}) != 1:
+                raise AnalysisError("E3: mixed integer-array indexing (line %d)" % node.lineno)
+            try:
+                out_ = []
+                for combo in zip(*fi):
+                    d_ = base.data
+                    for k_ in combo:
+                        d_ = d_[k_]
+                    out_.append(d_)
+                return Arr(out_)
+            except (IndexError, TypeError):
+                raise AnalysisError("E3: index out of range (line %d)" % node.lineno)
         if isinstance(base, Arr):
             def take(d, idx):
                 if not idx:
@@ -807,6 +881,11 @@ class Evaluator:
                     return [take(d, idx[1:])]
                 if not isinstance(d, list):
                     raise AnalysisError("E3: too many indices (line %d)" % node.lineno)
+                if isinstance(i, FancyIndex):
+                    try:
+                        return [take(d[k_], idx[1:]) for k_ in i]
+                    except IndexError:
+                        raise AnalysisError("E3: index out of range (line %d)" % node.lineno)
                 if isinstance(i, int):
                     try:
                         return take(d[i], idx[1:])
@@ -873,7 +952,8 @@ class Evaluator:
         if node.id in ("bool", "str", "float", "int") and getattr(self, "_type_context", False):
             return ("type", node.id)
         if node.id in ("range", "len", "abs", "float", "int", "list", "tuple", "min", "max", "sum", "zip", "enumerate",
-                       "reversed", "sorted", "all", "any", "round", "isinstance", "str", "bool"):
+                       "reversed", "sorted", "all", "any", "round", "isinstance", "str", "bool", "dict", "map", "filter",
+                       "divmod", "next", "iter"):
             return ("builtin", node.id)
         raise AnalysisError("E3: unbound name %s (line %d)" % (node.id, node.lineno))
 
@@ -932,7 +1012,12 @@ class Evaluator:
         if isinstance(op, ast.Add) and isinstance(a, (list, tuple)) and isinstance(b, (list, tuple)) and type(a) is type(b):
             return a + b                    # python sequences concatenate (numpy arrays are Arr / Opaque)
         if isinstance(op, ast.MatMult):
-            return self.np_dot(a, b, node)
+            return self.np_matmul(a, b, node)
+        # Python booleans are the integers 0 and 1 in arithmetic
+        if isinstance(a, bool):
+            a = Rat.const(int(a))
+        if isinstance(b, bool):
+            b = Rat.const(int(b))
         A = a if isinstance(a, Arr) else (materialise(a) if isinstance(a, (Opaque, list, tuple)) else None)
         B = b if isinstance(b, Arr) else (materialise(b) if isinstance(b, (Opaque, list, tuple)) else None)
         if (isinstance(a, Opaque) and A is None and a.shape is None and isinstance(b, (Arr,))) or \
@@ -1178,14 +1263,18 @@ class Evaluator:
             return self.eval(fn.body, env)
         if self.depth >= self.max_depth:
             raise AnalysisError("E3: inlining depth exceeded at local function %s" % fn.name)
+        gen = is_generator(fn)
+        if gen:
+            env["$yield"] = []
         self.depth += 1
         try:
             self.exec_block(fn.body, env)
         except _Return as r:
-            return r.value
+            if not gen:
+                return r.value
         finally:
             self.depth -= 1
-        return None
+        return env["$yield"] if gen else None
 
     def e_IfExp(self, node, env):
         return self.eval(node.body if self.decide(node.test, env) else node.orelse, env)
@@ -1210,6 +1299,7 @@ class Evaluator:
                 except IndexError:
                     return self.index_error(node)
                 return Arr([list(r) if isinstance(r, list) else r for r in rows])
+            self.hand_down(node.slice, sel)
         if isinstance(base, tuple) and base and base[0] == "import":
             # a table of another module indexed by a (symbolic) key: opaque row
             return Opaque("%s[%s]" % (base[1], vkey(self.eval(node.slice, env))))
@@ -1238,6 +1328,14 @@ class Evaluator:
             if dotted in self.import_values:
                 return self.import_values[dotted]
             return ("import", dotted)
+        if isinstance(base, NTuple):
+            if node.attr in base.nt_fields:
+                return base[base.nt_fields.index(node.attr)]
+            if node.attr == "_fields":
+                return base.nt_fields
+            if node.attr == "_asdict":
+                return ("closure", ast.parse("lambda: _d", mode="eval").body, {"_d": dict(zip(base.nt_fields, base))})
+            raise AnalysisError("E3: namedtuple %s has no field %s (line %d)" % (base.nt_name, node.attr, node.lineno))
         if isinstance(base, Obj):
             if node.attr not in base.attrs:
                 raise AnalysisError("E3: object %s has no attribute %s (line %d)" % (base.name, node.attr, node.lineno))
@@ -1281,9 +1379,16 @@ class Evaluator:
                     return self.np_call(alias.get(name[5:], name[5:]), args, kwargs, node)
                 if name.startswith("six.moves.range"):
                     return self.builtin("range", args, kwargs, node)
+                if name == "re.compile" and len(args) == 1 and isinstance(args[0], str):
+                    return ("regex", args[0])
+                if name == "re.sub" and len(args) == 3 and isinstance(args[0], tuple) and len(args[0]) == 2 and args[0][0] == "regex":
+                    args = [args[0][1]] + list(args[1:])
                 if name == "re.sub" and len(args) == 3 and all(isinstance(x, str) for x in args):
                     import re as _re
                     return _re.sub(args[0], args[1], args[2])
+                r_ = self.stdlib_call(name, args, kwargs, node)
+                if r_ is not NotImplemented:
+                    return r_
                 self.calls.append((name, [vkey(a) for a in args], node.lineno))
                 self.events.append(("import", name, list(args)))
                 if self.import_policy is not None:
@@ -1295,9 +1400,130 @@ class Evaluator:
                 return self.method_call(f[1], f[2], args, kwargs, node)
             if kind == "closure":
                 return self.call_closure(f, args, kwargs, node)
+            if kind == "ntclass":
+                fields = f[2]
+                vals = list(args) + [None] * (len(fields) - len(args))
+                for k_, v_ in kwargs.items():
+                    if k_ not in fields:
+                        raise AnalysisError("E3: namedtuple %s has no field %s (line %d)" % (f[1], k_, node.lineno))
+                    vals[fields.index(k_)] = v_
+                if len(args) > len(fields) or any(v_ is None and fields[i_] not in kwargs and i_ >= len(args) for i_, v_ in enumerate(vals)):
+                    raise AnalysisError("E3: namedtuple %s called with the wrong number of fields (line %d)" % (f[1], node.lineno))
+                return NTuple(f[1], fields, vals)
         raise AnalysisError("E3: call of `%s` unsupported (line %d)" % (unparse(node.func)[:40], node.lineno))
 
     # ---------------------------------------------------------------- calls
+    def as_sequence(self, v, node):
+        if isinstance(v, Arr):
+            return [Arr(x) if isinstance(x, list) else x for x in v.data]
+        if isinstance(v, Opaque):
+            m = materialise(v)
+            if m is None:
+                raise AnalysisError("E3: iteration over a value of unknown length (line %d)" % getattr(node, "lineno", 0))
+            return [Arr(x) if isinstance(x, list) else x for x in m.data]
+        if isinstance(v, dict):
+            return list(v)
+        if isinstance(v, (list, tuple, str)):
+            return list(v)
+        raise AnalysisError("E3: iteration over %s (line %d)" % (type(v).__name__, getattr(node, "lineno", 0)))
+
+    def call_value(self, f, args, node):
+        """call a function value (closure, module function, operator, builtin) on evaluated arguments"""
+        if isinstance(f, tuple) and f:
+            if f[0] == "closure":
+                return self.call_closure(f, args, {}, node)
+            if f[0] == "function":
+                return self.module_call(f[1], args, {}, node)
+            if f[0] == "builtin":
+                return self.builtin(f[1], args, {}, node)
+            if f[0] == "npfunc":
+                return self.np_call(f[1], args, {}, node)
+            if f[0] == "import":
+                r_ = self.stdlib_call(f[1], args, {}, node)
+                if r_ is not NotImplemented:
+                    return r_
+            if f[0] == "boundmethod" and hasattr(self, "call_bound"):
+                return self.call_bound(f[2], f[1], args, {}, node)
+        raise AnalysisError("E3: call of a value that is not a known function (line %d)" % getattr(node, "lineno", 0))
+
+    OPERATORS = {"operator.add": ast.Add, "operator.sub": ast.Sub, "operator.mul": ast.Mult, "operator.truediv": ast.Div,
+                 "operator.mod": ast.Mod, "operator.pow": ast.Pow, "operator.matmul": ast.MatMult, "operator.floordiv": ast.FloorDiv}
+    COMPARATORS = {"operator.eq": ast.Eq, "operator.ne": ast.NotEq, "operator.lt": ast.Lt, "operator.le": ast.LtE,
+                   "operator.gt": ast.Gt, "operator.ge": ast.GtE}
+
+    def stdlib_call(self, name, args, kwargs, node):
+        import itertools as _it
+        if name in self.OPERATORS and len(args) == 2:
+            return self.binop(self.OPERATORS[name](), args[0], args[1], node)
+        if name in self.COMPARATORS and len(args) == 2:
+            return self.compare(self.COMPARATORS[name](), args[0], args[1], node)
+        if name == "operator.neg" and len(args) == 1:
+            return self.binop(ast.Mult(), Rat.const(-1), args[0], node)
+        if name == "operator.itemgetter" and args:
+            keys = list(args)
+            return ("closure", ast.parse("lambda _x: %s" % (", ".join("_x[_k%d]" % i for i in range(len(keys))) + ("," if len(keys) > 1 else ""))
+                                         , mode="eval").body, {"_k%d" % i: k for i, k in enumerate(keys)})
+        if name == "functools.reduce" and 2 <= len(args) <= 3:
+            seq = self.as_sequence(args[1], node)
+            if len(args) == 3:
+                acc = args[2]
+            elif seq:
+                acc, seq = seq[0], seq[1:]
+            else:
+                raise AnalysisError("E3: reduce of an empty sequence (line %d)" % node.lineno)
+            for x in seq:
+                acc = self.call_value(args[0], [acc, x], node)
+            return acc
+        if name == "itertools.product":
+            seqs = [self.as_sequence(a, node) for a in args]
+            rep = const_int(kwargs.get("repeat", 1))
+            if rep is None:
+                raise AnalysisError("E3: itertools.product with a non-constant repeat (line %d)" % node.lineno)
+            out = [tuple(t) for t in _it.product(*seqs, repeat=rep)]
+            if len(out) > 100000:
+                raise AnalysisError("E3: itertools.product too long (line %d)" % node.lineno)
+            return out
+        if name == "itertools.chain":
+            out = []
+            for a in args:
+                out.extend(self.as_sequence(a, node))
+            return out
+        if name == "itertools.chain.from_iterable" and len(args) == 1:
+            out = []
+            for a in self.as_sequence(args[0], node):
+                out.extend(self.as_sequence(a, node))
+            return out
+        if name == "itertools.islice" and 2 <= len(args) <= 4:
+            ints = [const_int(a) if a is not None else None for a in args[1:]]
+            if any(i is None and a is not None for i, a in zip(ints, args[1:])):
+                raise AnalysisError("E3: islice with non-constant bounds (line %d)" % node.lineno)
+            return list(_it.islice(self.as_sequence(args[0], node), *ints))
+        if name in ("itertools.permutations", "itertools.combinations") and len(args) >= 1:
+            r = const_int(args[1]) if len(args) > 1 else None
+            f = _it.permutations if name.endswith("permutations") else _it.combinations
+            return [tuple(t) for t in (f(self.as_sequence(args[0], node), r) if r is not None else f(self.as_sequence(args[0], node)))]
+        if name == "itertools.repeat" and len(args) == 2 and const_int(args[1]) is not None:
+            return [args[0]] * const_int(args[1])
+        if name == "collections.namedtuple" and len(args) == 2 and isinstance(args[0], str):
+            fields = args[1]
+            if isinstance(fields, str):
+                fields = fields.replace(",", " ").split()
+            fields = list(fields)
+            if not all(isinstance(f_, str) for f_ in fields):
+                raise AnalysisError("E3: namedtuple with non-constant field names (line %d)" % node.lineno)
+            return ("ntclass", args[0], tuple(fields))
+        if name == "collections.OrderedDict" and len(args) <= 1:
+            out = {}
+            if args:
+                src = args[0] if isinstance(args[0], dict) else self.as_sequence(args[0], node)
+                for kv in (src.items() if isinstance(src, dict) else src):
+                    out[dict_key(kv[0])] = kv[1]
+            return out
+        if name == "copy.copy" or name == "copy.deepcopy":
+            v = args[0]
+            return v.copy() if isinstance(v, Arr) else (list(v) if isinstance(v, list) else dict(v) if isinstance(v, dict) else v)
+        return NotImplemented
+
     def module_call(self, name, args, kwargs, node):
         if is_helper(self.mod, name):
             # not an anchor of the pinned API: seen through, invisible to call policies and call logs
@@ -1380,6 +1606,37 @@ class Evaluator:
             for x in v:
                 tot = self.binop(ast.Add(), tot, x, node)
             return tot
+        if name == "dict":
+            out = {}
+            if args:
+                src = args[0]
+                for kv in (list(src.items()) if isinstance(src, dict) else self.as_sequence(src, node)):
+                    if not isinstance(kv, (list, tuple, Arr)) or len(kv if not isinstance(kv, Arr) else kv.data) != 2:
+                        raise AnalysisError("E3: dict() of a sequence that is not made of pairs (line %d)" % node.lineno)
+                    kv = kv.data if isinstance(kv, Arr) else kv
+                    out[dict_key(kv[0])] = kv[1]
+            out.update(kwargs)
+            return out
+        if name == "map" and len(args) >= 2:
+            seqs = [self.as_sequence(a, node) for a in args[1:]]
+            return [self.call_value(args[0], list(t), node) for t in zip(*seqs)]
+        if name == "filter" and len(args) == 2:
+            out = []
+            for x in self.as_sequence(args[1], node):
+                keep = x if args[0] is None else self.call_value(args[0], [x], node)
+                if not isinstance(keep, bool):
+                    raise AnalysisError("E3: filter predicate does not fold (line %d)" % node.lineno)
+                if keep:
+                    out.append(x)
+            return out
+        if name == "iter" and len(args) == 1:
+            return self.as_sequence(args[0], node)
+        if name == "next" and len(args) >= 1 and isinstance(args[0], list):
+            if args[0]:
+                return args[0].pop(0)
+            if len(args) == 2:
+                return args[1]
+            raise AnalysisError("E3: next() of an exhausted sequence (line %d)" % node.lineno)
         if name in ("zip", "enumerate", "reversed", "sorted", "all", "any"):
             seqs = []
             for v in args:
@@ -1392,6 +1649,8 @@ class Evaluator:
                     v = [Arr(x) if isinstance(x, list) else x for x in m.data]
                 if isinstance(v, dict):
                     v = list(v)
+                if isinstance(v, range):
+                    v = [Rat.const(i_) for i_ in v]
                 if not isinstance(v, (list, tuple, str)):
                     raise AnalysisError("E3: %s over a non-sequence (line %d)" % (name, node.lineno))
                 seqs.append(list(v))
@@ -1416,6 +1675,10 @@ class Evaluator:
         raise AnalysisError("E3: builtin %s unsupported (line %d)" % (name, node.lineno))
 
     def method_call(self, base, attr, args, kwargs, node):
+        if isinstance(base, tuple) and len(base) == 2 and base[0] == "regex" and attr == "sub" and len(args) == 2 \
+                and all(isinstance(x_, str) for x_ in args):
+            import re as _re
+            return _re.sub(base[1], args[0], args[1])
         if attr == "dot" and len(args) == 1:
             return self.np_dot(base, args[0], node)
         if attr == "get" and isinstance(base, dict) and 1 <= len(args) <= 2:
@@ -1522,6 +1785,79 @@ class Evaluator:
                 return get(src)
             return [build(pre + [i], dims[1:]) for i in range(dims[0])]
         return Arr(build([], new_shape))
+
+    def np_einsum(self, spec, operands, node):
+        """explicit-array einsum: the subscripts are expanded into sums over index ranges"""
+        import itertools
+        spec = spec.replace(" ", "")
+        if "." in spec:
+            raise AnalysisError("E3: einsum with ellipsis (line %d)" % node.lineno)
+        ins, _, out = spec.partition("->")
+        ins = ins.split(",")
+        if len(ins) != len(operands):
+            raise AnalysisError("E3: einsum operand count (line %d)" % node.lineno)
+        arrs = []
+        for o in operands:
+            A = o if isinstance(o, Arr) else (materialise(o) if isinstance(o, (list, tuple, Opaque)) else None)
+            if A is None:
+                raise AnalysisError("E3: einsum of a non-explicit operand (line %d)" % node.lineno)
+            arrs.append(A)
+        size = {}
+        for sub, A in zip(ins, arrs):
+            if len(sub) != len(A.shape):
+                raise AnalysisError("E3: einsum subscripts %r do not match rank %d (line %d)" % (sub, len(A.shape), node.lineno))
+            for ch, n_ in zip(sub, A.shape):
+                if size.setdefault(ch, n_) != n_:
+                    raise AnalysisError("E3: einsum dimension mismatch for %r (line %d)" % (ch, node.lineno))
+        if "->" not in spec:
+            counts = {}
+            for sub in ins:
+                for ch in sub:
+                    counts[ch] = counts.get(ch, 0) + 1
+            out = "".join(sorted(ch for ch, c in counts.items() if c == 1))
+        summed = [ch for ch in size if ch not in out]
+
+        def get(A, sub, idx):
+            d = A.data
+            for ch in sub:
+                d = d[idx[ch]]
+            return scalar(d)
+
+        def build(pos, idx):
+            if pos == len(out):
+                tot = Rat.const(0)
+                for combo in itertools.product(*[range(size[ch]) for ch in summed]):
+                    idx2 = dict(idx)
+                    idx2.update(zip(summed, combo))
+                    term = Rat.const(1)
+                    for sub, A in zip(ins, arrs):
+                        term = term * get(A, sub, idx2)
+                        if term.is_zero():
+                            break
+                    tot = tot + term
+                return tot
+            ch = out[pos]
+            return [build(pos + 1, dict(idx, **{ch: i})) for i in range(size[ch])]
+        r = build(0, {})
+        return Arr(r) if isinstance(r, list) else r
+
+    def np_matmul(self, a, b, node):
+        A = a if isinstance(a, Arr) else materialise(a)
+        B = b if isinstance(b, Arr) else materialise(b)
+        if A is None or B is None:
+            return Opaque("matmul(%s,%s)" % (vkey(a), vkey(b)))
+        ra, rb = len(A.shape), len(B.shape)
+        if ra <= 2 and rb <= 2:
+            return self.np_dot(A, B, node)
+        if ra == 3 and rb == 2:
+            return Arr([self.np_dot(Arr(m), B, node).data for m in A.data])
+        if ra == 2 and rb == 3:
+            return Arr([self.np_dot(A, Arr(m), node).data for m in B.data])
+        if ra == 3 and rb == 3 and A.shape[0] == B.shape[0]:
+            return Arr([self.np_dot(Arr(x), Arr(y), node).data for x, y in zip(A.data, B.data)])
+        if ra == 3 and rb == 1:
+            return Arr([self.np_dot(Arr(m), B, node).data for m in A.data])
+        raise AnalysisError("E3: matmul of shapes %s and %s (line %d)" % (A.shape, B.shape, getattr(node, "lineno", 0)))
 
     def np_dot(self, a, b, node):
         if isinstance(a, Rat) or isinstance(b, Rat):
@@ -1756,6 +2092,9 @@ class Evaluator:
                 shape = v.shape
             if isinstance(v, Opaque) and v.base.startswith("inv(") and not v.idx:
                 return Opaque(v.base[4:-1], shape)
+            if A is not None and len(shape) == 3 and shape[1] == shape[2]:
+                return Arr([m_.data if isinstance(m_, Arr) else materialise(m_).data
+                            for m_ in (self.np_call("linalg.inv", [Arr(x_)], {}, node) for x_ in A.data)])
             if A is not None and len(shape) == 2 and shape[0] == shape[1] and 2 <= shape[0] <= 3 and triangular(A) \
                     and not closed_constant(A) and A._opaque_base() is None:
                 # a triangular matrix has a closed-form inverse in its own entries (so inv(inv(T)) is T again)
@@ -1811,6 +2150,10 @@ class Evaluator:
                     return [rec(x) for x in d] if isinstance(d, list) else sg(d)
                 return Arr(rec(A.data))
             return sg(v)
+        if name == "einsum" and len(args) >= 2 and isinstance(args[0], str) and not kwargs:
+            return self.np_einsum(args[0], args[1:], node)
+        if name == "matmul" and len(args) == 2 and not kwargs:
+            return self.np_matmul(args[0], args[1], node)
         if name == "outer" and len(args) == 2:
             A = args[0] if isinstance(args[0], Arr) else materialise(args[0])
             B = args[1] if isinstance(args[1], Arr) else materialise(args[1])
@@ -1992,6 +2335,19 @@ def exact_inverse(A: Arr):
     if det.is_zero():
         return None
     return Arr([[cof(j, i) / det for j in range(3)] for i in range(3)])
+
+
+def is_generator(fn):
+    """does the function body (not nested functions) contain yield?"""
+    stack = list(fn.body)
+    while stack:
+        n_ = stack.pop()
+        if isinstance(n_, (ast.Yield, ast.YieldFrom)):
+            return True
+        if isinstance(n_, (ast.FunctionDef, ast.Lambda, ast.ClassDef)):
+            continue
+        stack.extend(ast.iter_child_nodes(n_))
+    return False
 
 
 def array_content(A: Arr):
